@@ -431,8 +431,8 @@ VARIANTS += [
     # repairs of the defects a runtime oracle found on the unmodified tree, each reverted
     V("C01", "parameter without a mypy type raises", VIS, "            if mypy_type is None:\n                # Mypy does not analyse every function (e.g. unreachable code or functions with @no_type_check), for\n                # those we have no type information\n                pass\n",
       "            if mypy_type is None:\n                raise ValueError(\"Argument has no type.\")\n", "C01.RAISE-INVENTORY"),
-    V("C01", "dict branch reads two arguments unconditionally", VIS, 'elif type_name in {"dict", "Mapping"} and len(mypy_type.args) == 2:', 'elif type_name in {"dict", "Mapping"}:', "C01.PARTIAL-OPS"),
-    V("C01", "benign: dict arity tested with >=", VIS, 'elif type_name in {"dict", "Mapping"} and len(mypy_type.args) == 2:', 'elif type_name in {"dict", "Mapping"} and len(mypy_type.args) >= 2:', None),
+    V("C01", "dict branch reads two arguments unconditionally", VIS, 'elif is_builtin_class and type_name in {"dict", "Mapping"} and len(mypy_type.args) == 2:', 'elif is_builtin_class and type_name in {"dict", "Mapping"}:', "C01.PARTIAL-OPS"),
+    V("C01", "benign: dict arity tested with >=", VIS, 'elif is_builtin_class and type_name in {"dict", "Mapping"} and len(mypy_type.args) == 2:', 'elif is_builtin_class and type_name in {"dict", "Mapping"} and len(mypy_type.args) >= 2:', None),
     V("C01", "unbound name becomes a named type without qname", MH, "        elif not expr.fullname:\n            # Mypy could not find out what the name refers to\n            return sds_types.UnknownType()\n", "", "C01.IMPORT-SOURCE"),
     V("C01", "benign: unbound-name test written positively", MH, "        elif not expr.fullname:\n            # Mypy could not find out what the name refers to\n            return sds_types.UnknownType()\n        else:\n            return sds_types.NamedType(name=expr.name, qname=expr.fullname)",
       "        elif expr.fullname:\n            return sds_types.NamedType(name=expr.name, qname=expr.fullname)\n        else:\n            return sds_types.UnknownType()", None),
@@ -523,4 +523,20 @@ VARIANTS += [
 ]
 VARIANTS += [
     V("C07", "coroutine wrapper translated as the return type", VIS, "                if (\n                    node.is_coroutine\n                    and isinstance(node_ret_type, mp_types.Instance)\n                    and node_ret_type.type.fullname == \"typing.Coroutine\"\n                    and len(node_ret_type.args) == 3\n                ):\n                    node_ret_type = node_ret_type.args[2]\n", "", "C07.COROUTINE"),
+]
+VARIANTS += [
+    V("C04", "members of a module imported under its private name become public", VIS, "(qualified_import.alias is None and not is_internal(module_name))", "(qualified_import.alias is None and not_internal)", "C04.REEXPORT-TABLE"),
+    V("C15", "init files recognised by the end of their name (build graph)", GA, 'if ast_path.name == "__init__.py":', 'if ast.path.endswith("__init__.py"):', "C15.AST-FILTER"),
+    V("C15", "init files recognised by the end of their name (visitor)", VIS, "is_package = node.is_package_init_file()", 'is_package = node.path.endswith("__init__.py")', "C15.AST-FILTER"),
+    V("C10", "every directory written into is registered as a written placeholder", GS, "        if file_path.stem == file_path.parent.name:\n            created_module_paths.add(file_path.parent.relative_to(out_path).as_posix())", "        created_module_paths.add(file_path.parent.relative_to(out_path).as_posix())", "C10.WRITE-MODE"),
+    V("C13", "matched result docstrings removed from the caller's list", VIS, "                    if hash(docstring.type) == hash(type_) and not any(docstring is matched for matched in matched_docstrings):\n                        result_docstring = docstring\n                        matched_docstrings.append(docstring)", "                    if hash(docstring.type) == hash(type_):\n                        result_docstring = docstring\n                        result_docstrings.remove(docstring)", "C13.RESULT-DOC-NAME"),
+    V("C06", "type from the default only without a documented type", VIS, "                if arg_type is None and (default_is_none or default_value is not None):\n                    arg_type = mypy_expression_to_sds_type(initializer)", "                docstring = self.docstring_parser.get_parameter_documentation(function_qname=node.fullname, parameter_name=argument.variable.name, parent_class_qname=\"\")\n                if arg_type is None and docstring.type is None and (default_is_none or default_value is not None):\n                    arg_type = mypy_expression_to_sds_type(initializer)", "C06.ONE-PER-PARAM"),
+    V("C05", "nullable shorthand for every member kind but literals and callables", GEN, 'if type_information["kind"] in {"NamedType", "TupleType", "ListType", "SetType", "DictType"} and not (', 'if type_information["kind"] not in {"LiteralType", "CallableType"} and not (', "C05.UNION-NORMAL"),
+    V("C02", "nullable shorthand for every member kind but literals and callables", GEN, 'if type_information["kind"] in {"NamedType", "TupleType", "ListType", "SetType", "DictType"} and not (', 'if type_information["kind"] not in {"LiteralType", "CallableType"} and not (', "C05.UNION-NORMAL"),
+]
+VARIANTS += [
+    V("C13", "the last string statement of a body is its docstring", "docstring_parsing/_helpers.py", "    for definition in definitions[:1]:", "    for definition in definitions:", "C13.MODULE-DOC"),
+    V("C13", "benign: first statement through an index", "docstring_parsing/_helpers.py", "    for definition in definitions[:1]:\n        if isinstance(definition, nodes.ExpressionStmt) and isinstance(definition.expr, nodes.StrExpr):\n            full_docstring = definition.expr.value", "    if definitions and isinstance(definitions[0], nodes.ExpressionStmt) and isinstance(definitions[0].expr, nodes.StrExpr):\n        full_docstring = definitions[0].expr.value", None),
+    V("C07", "only the outermost conditional expression is inferred", VIS, "                        for conditional_branch in get_conditional_branches(return_stmt.expr):", "                        for conditional_branch in [return_stmt.expr.if_expr, return_stmt.expr.else_expr]:", "C07.INFER-COLLECT"),
+    V("C01", "conditional branches collected by recursing on the expression itself", MH, "            branches.extend(get_conditional_branches(branch))", "            branches.extend(get_conditional_branches(expr))", "C01.TERM"),
 ]
